@@ -1,5 +1,6 @@
 import Hub.Proofs.Sync
 import Hub.Model.Pipeline
+import Hub.Proofs.PipeInv
 import Hub.Generated.Pipeline
 /-!
 # C08 — incremental jobs converge and tokens never run ahead of delivered data
@@ -105,6 +106,51 @@ example :
     let l : List Step := [.write (1, 10), .write (1, 11)] ++ pages 5 1 ++ [.startFull true, .deliver 1, .abort] ++ pages 5 3
     let s := run {} l
     getA 1 s.sink = some 11 ∧ latest s.src 1 = some 11 ∧ s.tok = s.src.length := by decide
+
+/-! ## the detailed model (`Hub.Pipe`): the model that is compared with the code, run by run
+
+`Hub.Pipe` follows pipeline.go / dataset_source.go / sink.go statement by statement (token strings, pages read with
+`ProcessChanges`, the sink's write-time duplicate detection, `CompleteFullSync`, scripted faults). For a job over one
+dataset source that reads all versions the theorems below are about that model directly. -/
+open Hub.Pipe Hub.PipeInv in
+/-- **token safety, run by run**: whatever happens to a run — the sink rejects any call, the run is killed after any
+batch, the process dies between the sink write and the token store; incremental or full sync — afterwards the stored
+token still does not point past anything the sink lacks: for every id changed below the token the sink's latest version
+is a source version at least as new as the last of those changes. A run that ends `ok` leaves the token at the end. -/
+theorem pipe_run_safe (b : Nat) (hb : 0 < b) (full : Bool) (flt : Faults) (s : Hub.Pipe.St) (f : Feed) (h : Safe f s) :
+    Safe f (runJob true (cfg1 b) full flt s).1
+    ∧ ((runJob true (cfg1 b) full flt s).2 = .ok → pos (runJob true (cfg1 b) full flt s).1.tok = f.length) :=
+  runJob_safe b hb full flt s f h
+
+open Hub.Pipe Hub.PipeInv in
+/-- **token safety over every history** of source writes (batches of any content, with re-posts) and runs (either job
+type, any fault at any point), from the empty hub. -/
+theorem pipe_token_safe (b : Nat) (hb : 0 < b) (evs : List Ev) :
+    ∃ f, Safe f (evs.foldl (stepEv b) { srcs := [[]] }) :=
+  history_safe b hb evs { srcs := [[]] } [] ⟨rfl, Nat.zero_le _, inv_zero _ _⟩
+
+open Hub.Pipe Hub.PipeInv in
+/-- **convergence and recovery**: after any history, a run that ends `ok` (any batch size ≥ 1, either job type) leaves
+the sink's latest version of every source id equal to the source's latest version — in particular the first `ok` run
+after failed, killed or crashed ones restores equality. -/
+theorem pipe_converges (b : Nat) (hb : 0 < b) (evs : List Ev) (full : Bool) (flt : Faults) :
+    let s := evs.foldl (stepEv b) { srcs := [[]] }
+    let r := runJob true (cfg1 b) full flt s
+    r.2 = .ok → ∃ f, r.1.srcs = [f] ∧ ∀ id, (∃ p, Occ f id p) → latestV r.1.sink.feed id = latestV f id := by
+  intro s r hok
+  obtain ⟨f, hs⟩ := pipe_token_safe b hb evs
+  obtain ⟨h1, h2⟩ := runJob_safe b hb full flt s f hs
+  refine ⟨f, h1.srcs, fun id hocc => ?_⟩
+  have hinv := h1.inv
+  rw [h2 hok] at hinv
+  exact converged_of_inv hinv id hocc
+
+-- non-vacuity: a full sync that dies after its first batch, then an incremental run: converged, token at the end
+example :
+    let w : Hub.PipeInv.Ev := .write [⟨1, 10, false⟩, ⟨1, 11, false⟩, ⟨2, 20, false⟩]
+    let s := ([w, .run false {}, .run true { dieAfter := some 1 }] : List Hub.PipeInv.Ev).foldl (Hub.PipeInv.stepEv 1) { srcs := [[]] }
+    let r := Hub.Pipe.runJob true (Hub.PipeInv.cfg1 1) false {} s
+    r.2 = .ok ∧ r.1.tok = [some 3] ∧ Hub.Pipe.latestV r.1.sink.feed 1 = some ⟨1, 11, false⟩ := by decide
 
 /-! ## the tie to pipeline.go / union_source.go: regenerated skeletons -/
 set_option maxRecDepth 8000 in
